@@ -465,6 +465,12 @@ func (ex *Exec) eqValue(a, b Value) *Term {
 				if _, _, ok := ex.idealByte(ex.resolveView(yt)); ok {
 					ideal = true
 				}
+				// bytes of a point encoding (also the x-only form, which
+				// drops byte 0): decided by the injectivity rule, not by
+				// free values of the uninterpreted function
+				if (xt.Op == OUF && xt.Name == "ser") || (yt.Op == OUF && yt.Name == "ser") {
+					ideal = true
+				}
 			}
 			if bytesOnly && ideal {
 				return ex.eqBytes(xs, ys)
